@@ -1453,6 +1453,27 @@ fn table_ops() -> Vec<Vec<u8>> {
     for p in ["8:0", "8:1;3;4", "8;3:1;4:2", "8:;3;4", "8;3;4:9", "18", "7"] {
         v.push(format!("\x1b[{p}t").into_bytes());
     }
+    // SGR pairs over the interesting parameters (order matters: unknown ones must not affect later ones)
+    {
+        let ps = [0u32, 1, 2, 3, 4, 5, 7, 9, 10, 21, 22, 23, 24, 27, 30, 37, 38, 39, 40, 47, 48, 49, 53, 58, 90, 97, 100, 107, 108, 255];
+        for a in ps {
+            for b in ps {
+                v.push(format!("\x1b[{a};{b}m").into_bytes());
+            }
+        }
+    }
+    // every ordered pair of mouse mode / encoding switches, set-set, set-reset, and in one sequence
+    {
+        let ms = [9u32, 1000, 1002, 1003, 1005, 1006, 1015];
+        for a in ms {
+            for b in ms {
+                v.push(format!("\x1b[?{a}h\x1b[?{b}l").into_bytes());
+                v.push(format!("\x1b[?{a}h\x1b[?{b}h").into_bytes());
+                v.push(format!("\x1b[?{a};{b}h").into_bytes());
+                v.push(format!("\x1b[?{a}h\x1b[?{b};{a}l").into_bytes());
+            }
+        }
+    }
     // DECSET / DECRST numbers 0..=2100
     for n in 0..=2100u32 {
         v.push(format!("\x1b[?{n}h").into_bytes());
@@ -1488,12 +1509,21 @@ pub fn table_case(i: u64) -> Option<Case> {
     }
     lines.push("DUMP".into());
     lines.push("LOG".into());
+    lines.push("SNAP 0".into());
     lines.push("VNEW".into());
     lines.push(format!("P {}", hex(op)));
     lines.push(format!("VP {}", hex(op)));
     lines.push("DUMP".into());
     lines.push("LOG".into());
     lines.push("FMT state".into());
+    lines.push("FMT attrs".into());
+    lines.push("FMT input".into());
+    lines.push("DIFF state 0".into());
+    lines.push("DIFF input 0".into());
+    // and back: the diff from the new state to the old one
+    lines.push("SNAP 1".into());
+    lines.push("P 1b5b6d1b5b3f313030306c1b5b3f313030366c".into());
+    lines.push("DIFF state 1".into());
     Some(Case { lines })
 }
 
@@ -1553,6 +1583,207 @@ pub fn exh_case(i: u64) -> Option<Case> {
     }
     lines.push(format!("ROWSF 0 {cols}"));
     lines.push(format!("ROWSD 0 0 {cols}"));
+    lines.push("VIEWS".into());
+    Some(Case { lines })
+}
+
+/// Systematic "pre-state class x operation x parameter" enumeration (deterministic):
+/// content x scroll region x cursor placement x screen, then ONE operation, observed before and after.
+const OPX_SIZES: &[(u16, u16)] = &[(4, 5), (3, 3), (2, 2), (1, 4)];
+const OPX_CONTENTS: u64 = 5;
+const OPX_REGIONS: u64 = 6;
+const OPX_CURSORS: u64 = 8;
+const OPX_SCREENS: u64 = 2;
+
+fn opx_ops() -> Vec<Vec<u8>> {
+    let mut v: Vec<Vec<u8>> = vec![];
+    let params = ["", "0", "1", "2", "3", "4", "5", "6", "65535"];
+    for fin in ['A', 'B', 'C', 'D', 'E', 'F', 'G', 'd', '`', 'a', 'e', '@', 'P', 'X', 'L', 'M', 'S', 'T', 'Z', 'I', 'b'] {
+        for p in params {
+            v.push(format!("\x1b[{p}{fin}").into_bytes());
+        }
+    }
+    for fin in ['J', 'K'] {
+        for p in ["", "0", "1", "2", "3", "4"] {
+            v.push(format!("\x1b[{p}{fin}").into_bytes());
+            v.push(format!("\x1b[?{p}{fin}").into_bytes());
+        }
+    }
+    for fin in ['H', 'f', 'r'] {
+        for a in ["", "0", "1", "2", "3", "4", "5", "65535"] {
+            for b in ["", "1", "2", "3", "5", "6", "65535"] {
+                v.push(format!("\x1b[{a};{b}{fin}").into_bytes());
+            }
+            v.push(format!("\x1b[{a}{fin}").into_bytes());
+        }
+    }
+    for b in [8u8, 9, 10, 11, 12, 13] {
+        v.push(vec![b]);
+    }
+    for e in ["\x1bM", "\x1bD", "\x1bE", "\x1b7", "\x1b8", "\x1bc", "\x1b[s", "\x1b[u", "\x1b[?6h", "\x1b[?6l", "\x1b[?1049h", "\x1b[?1049l", "\x1b[?47h", "\x1b[?47l"] {
+        v.push(e.as_bytes().to_vec());
+    }
+    for t in ["x", "\u{4e16}", "\u{301}", "xy", "\u{4e16}\u{754c}", "x\u{301}", "\u{a0}", "\u{85}"] {
+        v.push(t.as_bytes().to_vec());
+    }
+    // set_size relative to the current size: 0xff 'S' (rows delta + 2) (cols delta + 2)
+    for dr in 0..=4u8 {
+        for dc in 0..=4u8 {
+            if dr != 2 || dc != 2 {
+                v.push(vec![0xff, b'S', dr, dc]);
+            }
+        }
+    }
+    // set_scrollback k: 0xff 'B' k
+    for k in 0..=3u8 {
+        v.push(vec![0xff, b'B', k]);
+    }
+    v
+}
+
+pub fn opx_size() -> u64 {
+    opx_ops().len() as u64 * OPX_SIZES.len() as u64 * OPX_CONTENTS * OPX_REGIONS * OPX_CURSORS * OPX_SCREENS
+}
+
+pub fn opx_case(i: u64) -> Option<Case> {
+    let ops = opx_ops();
+    if i >= opx_size() {
+        return None;
+    }
+    let mut j = i;
+    let mut take = |n: u64| {
+        let x = j % n;
+        j /= n;
+        x
+    };
+    // the operation varies fastest, so a window of consecutive indices covers all operations of a pre-state
+    let op = &ops[take(ops.len() as u64) as usize];
+    let cursor = take(OPX_CURSORS);
+    let region = take(OPX_REGIONS);
+    let content = take(OPX_CONTENTS);
+    let screen = take(OPX_SCREENS);
+    let (rows, cols) = OPX_SIZES[take(OPX_SIZES.len() as u64) as usize];
+    let mut pre: Vec<u8> = vec![];
+    if screen == 1 {
+        pre.extend(b"\x1b[?1049h");
+    }
+    match content {
+        0 => {}
+        1 => {
+            // every row full: all rows but the last are flagged wrapped
+            for i in 0..(u32::from(rows) * u32::from(cols)) {
+                pre.push(b'a' + (i % 26) as u8);
+            }
+        }
+        2 => {
+            // wide characters, one of them in the last two columns, a combining mark
+            for r in 1..=rows {
+                pre.extend(format!("\x1b[{r};1H").as_bytes());
+                if cols >= 2 {
+                    pre.extend("\u{4e16}".as_bytes());
+                }
+                if cols >= 3 {
+                    pre.extend("e\u{301}".as_bytes());
+                }
+                if cols >= 4 {
+                    pre.extend(format!("\x1b[{r};{}H", cols - 1).as_bytes());
+                    pre.extend("\u{754c}".as_bytes());
+                }
+            }
+        }
+        3 => {
+            // sparse text with colours and coloured blanks
+            pre.extend(b"\x1b[41mq\x1b[2X\x1b[m");
+            pre.extend(format!("\x1b[{rows};{cols}H\x1b[1;32mz\x1b[m").as_bytes());
+        }
+        _ => {
+            // text that wraps once, then a short line, with scrollback history above
+            for i in 0..(u32::from(cols) + 2) {
+                pre.push(b'k' + (i % 10) as u8);
+            }
+            pre.extend(b"\r\nuv\r\n\r\n\r\n\r\nw");
+        }
+    }
+    let rr = u64::from(rows);
+    match region {
+        0 => {}
+        1 => pre.extend(format!("\x1b[2;{}r", (rr - 1).max(2)).as_bytes()),     // proper inner region
+        2 => pre.extend(format!("\x1b[1;{}r", (rr - 1).max(1)).as_bytes()),     // anchored at the top
+        3 => pre.extend(format!("\x1b[2;{}r", rr).as_bytes()),                   // anchored at the bottom
+        4 => pre.extend(format!("\x1b[2;{}r\x1b[?6h", (rr - 1).max(2)).as_bytes()), // origin mode
+        _ => pre.extend(format!("\x1b[{};{}r", rr.min(3), rr.min(3) + 1).as_bytes()), // two lines near the bottom / invalid on tiny screens
+    }
+    // cursor placement (absolute: origin mode is switched off around the CUP so that the cursor can
+    // be put outside the region)
+    let place = |pre: &mut Vec<u8>, r: u64, c: u64| {
+        if region == 4 {
+            pre.extend(format!("\x1b[?6l\x1b[{r};{c}H\x1b[?6h").as_bytes());
+            // DECOM set homes the cursor: re-place it with a relative move sequence instead
+            pre.extend(format!("\x1b[?6l\x1b[{r};{c}H").as_bytes());
+        } else {
+            pre.extend(format!("\x1b[{r};{c}H").as_bytes());
+        }
+    };
+    let cc = u64::from(cols);
+    match cursor {
+        0 => place(&mut pre, 1, 1),
+        1 => place(&mut pre, rr, cc),
+        2 => place(&mut pre, 2.min(rr), 2.min(cc)),
+        3 => place(&mut pre, rr, 1),
+        4 => {
+            // pending wrap on the first row
+            place(&mut pre, 1, cc);
+            pre.push(b'P');
+        }
+        5 => {
+            // pending wrap on the last row
+            place(&mut pre, rr, cc);
+            pre.push(b'Q');
+        }
+        6 => {
+            // on the second half of a wide character (content 2 puts one at columns 1-2 of every row)
+            place(&mut pre, (rr + 1) / 2, 2.min(cc));
+        }
+        _ => place(&mut pre, (rr + 1) / 2, cc.saturating_sub(1).max(1)),
+    }
+    if region == 4 && cursor % 2 == 0 {
+        pre.extend(b"\x1b[?6h\x1b[1;1H"); // origin mode stays on for half of the placements
+    }
+    let mut lines = vec![format!("NEW {rows} {cols} 2 0")];
+    lines.push(format!("P {}", hex(&pre)));
+    if content == 4 && cursor % 2 == 1 {
+        lines.push("SB 1".into()); // the operation is processed while the view is scrolled back
+    }
+    lines.push("SNAP 0".into());
+    lines.push("DUMP".into());
+    let opline = if op.first() == Some(&0xff) && op.get(1) == Some(&b'S') {
+        let nr = (i32::from(rows) + i32::from(op[2]) - 2).max(1);
+        let nc = (i32::from(cols) + i32::from(op[3]) - 2).max(1);
+        format!("SIZE {nr} {nc}")
+    } else if op.first() == Some(&0xff) {
+        format!("SB {}", op[2])
+    } else {
+        format!("P {}", hex(op))
+    };
+    let resized = opline.starts_with("SIZE");
+    lines.push(opline.clone());
+    for l in ["DUMP", "OBS", "LOG", "FMT state", "TEXT"] {
+        lines.push(l.into());
+    }
+    if !resized {
+        lines.push("DIFF state 0".into());
+        lines.push(format!("ROWSD 0 0 {cols}"));
+        lines.push(format!("ROWSD 0 1 {}", cols.saturating_sub(1).max(1)));
+    }
+    lines.push(format!("ROWSF 0 {cols}"));
+    lines.push(format!("ROWSF 1 {}", cols + 1));
+    lines.push(format!("ROWS 1 {}", cols));
+    lines.push(format!("BETWEEN 0 1 {} {}", rows - 1, cols.saturating_sub(1)));
+    // and the same operation once more (pending states, repeated scrolls), then text at the cursor
+    lines.push(opline);
+    lines.push("DUMP".into());
+    lines.push("P 7a".into());
+    lines.push("DUMP".into());
     lines.push("VIEWS".into());
     Some(Case { lines })
 }
